@@ -240,6 +240,9 @@ EQ_CASES = [
     ("APP_ROOT", "/app", "/app"), ("APP_ROOT", "/b", "/b"),
     ("APP_ROOT+ENV", "/b", "/b"),        # given in code AND a different DEEP_APP_ROOT in the environment: code wins
     ("SERVICE_URL+ENV", "code:1", "code:1"), ("POLL_TIMER+ENV", "7", 7),
+    # the list settings written the way people write lists (blank after the comma, trailing comma, leading blank): whatever
+    # the agent makes of them, it makes the same of them in code and in the environment
+    ("IN_APP_INCLUDE", "/a, /b", "/a, /b"), ("IN_APP_INCLUDE", "/c,", "/c,"), ("IN_APP_EXCLUDE", " /a,/b", " /a,/b"),
 ]
 
 
@@ -341,7 +344,7 @@ def equivalence(ci: int) -> str:
     """
     Every documented setting behaves as documented, identically whether given in code or as its DEEP_ environment
     variable (text): poll interval usable by the timer, channel choice, prefix lists, auth provider, app root.
-    PRE: 0 <= ci <= 23
+    PRE: 0 <= ci <= 26
     POST: _ == ""
     """
     world.begin_path()
@@ -458,6 +461,6 @@ CONDITIONS = [
                                 for a in range(3) for b in range(3) for n in range(5) for r in range(4)],
          twins=["reach", "mutant:include_before_exclude@ni == 1 and ne == 1 and len(filename) == 2 and ri == 0"],
          bounds="file name FREE symbolic string <= 4 chars; 0-2 include and 0-2 exclude prefixes (FREE symbolic, <= 2 and <= 1 chars); app root from a pool of 4"),
-    dict(fn="equivalence", cubes=["ci == %d" % i for i in range(24)], twins=["reach"],
+    dict(fn="equivalence", cubes=["ci == %d" % i for i in range(27)], twins=["reach"],
          bounds="24 cases over all documented keys: env text vs the natural code value, and code value against a different DEEP_ variable through deep.start"),
 ]
